@@ -510,6 +510,15 @@ func checkFailCounter(c *Ctx, fn *ssa.Function, counter ssa.Value) string {
 		_, f, ok := core.LoadedField(v)
 		return ok && f == "success"
 	}
+	// one unconditional store of the selected value covers both outcomes (0 after a success,
+	// count + 1 after a failure)
+	merged := false
+	for _, ci := range core.CallsTo(fn, dbUpdateFindFails) {
+		a := ci.Common().Args
+		if a[len(a)-1] == ssa.Value(ph) && len(core.DomFacts(ci.Block())) == 0 {
+			merged = true
+		}
+	}
 	for i, e := range ph.Edges {
 		pred := ph.Block().Preds[i]
 		var succ *bool
@@ -541,7 +550,7 @@ func checkFailCounter(c *Ctx, fn *ssa.Function, counter ssa.Value) string {
 					}
 				}
 			}
-			if !okReset {
+			if !okReset && !merged {
 				return "the stored failure counter is not unconditionally reset to 0 on success"
 			}
 		} else {
@@ -559,7 +568,7 @@ func checkFailCounter(c *Ctx, fn *ssa.Function, counter ssa.Value) string {
 					okStore = true
 				}
 			}
-			if !okStore {
+			if !okStore && !merged {
 				return "the incremented failure counter is not persisted"
 			}
 		}
